@@ -77,6 +77,24 @@ func messageEntryPoints(t gen.TB, w *gen.World, m any, rp map[string]any, ccel, 
 	}
 }
 
+// thenSupported calls the level-reporting API with the very Options value a verification has just used (the
+// verification stores the collateral it fetched in that value, verified or not, accepted or not).
+func thenSupported(t gen.TB, w *gen.World, o *verify.Options, name string, rp map[string]any) {
+	rp2 := map[string]any{}
+	for k, v := range rp {
+		rp2[k] = v
+	}
+	rp2["then_supported"] = true
+	c10Call(t, "verify.SupportedTcbLevelsFromCollateral(same options)+"+name, rp2, func() error {
+		m, err := abi.QuoteToProto(w.Raw)
+		if err != nil {
+			return err
+		}
+		_, _, err = verify.SupportedTcbLevelsFromCollateral(m, o)
+		return err
+	})
+}
+
 func rawEntryPoints(t gen.TB, w *gen.World, b []byte, rp map[string]any) {
 	c10Call(t, "abi.QuoteToProto", rp, func() error { _, err := abi.QuoteToProto(b); return err })
 	for _, l := range []gen.Level{gen.LvlBase, gen.LvlColl} {
@@ -168,7 +186,8 @@ func structuralMutations(root proto.Message) []struct {
 				}
 				out = append(out, mut{n + ":nil", func(r proto.Message) { resolve(p, r).Clear(fd) }})
 			case fd.Kind() == protoreflect.Uint32Kind:
-				for _, v := range []uint32{0, 1, 1 << 16, 1<<16 - 1, 1<<32 - 1} {
+				cur := uint32(m.Get(fd).Uint())
+				for _, v := range []uint32{0, 1, 1 << 16, 1<<16 - 1, 1<<32 - 1, 1 << 31, 1<<31 - 1, cur - 1, cur + 1, cur + 2, cur + 3, cur + 4, cur + 9, cur + 1000, cur / 2} {
 					v := v
 					out = append(out, mut{fmt.Sprintf("%s=%d", n, v), func(r proto.Message) { resolve(p, r).Set(fd, protoreflect.ValueOfUint32(v)) }})
 				}
@@ -337,23 +356,36 @@ func TestC10(t *testing.T) {
 
 	// (1) every single structural mutation of a valid message, at every message entry point.
 	gen.Direct(t, "message-structure", func(t *testing.T) {
-		valid := base.Q.ToProto()
-		muts := structuralMutations(valid)
-		for i, mu := range muts {
-			if !gen.ShardOwns(i) {
-				continue
-			}
-			m := proto.Clone(valid).(*pb.QuoteV4)
-			mu.Apply(m)
-			b, _ := proto.Marshal(m)
-			rp := map[string]any{"kind": "crash-message", "proto_hex": hex.EncodeToString(b), "mutation": mu.Name}
-			messageEntryPoints(t, base, m, rp, ccel, table)
-			if abi.CheckQuoteV4(valid) == nil {
-				gen.NonTrivial("msg", mu.Name)
-			}
-			gen.Class("message-mutation")
-			if i%29 == 0 {
-				gen.Sample("message-mutation", mu.Name)
+		// the valid message as the parser produces it for a quote without trailing bytes, with three trailing bytes, and
+		// with an empty-but-present trailing-bytes field (which only a hand-built or wire-decoded message has)
+		nMuts := 0
+		for vi, extra := range [][]byte{nil, {0xaa, 0xbb, 0xcc}, {}} {
+			valid := base.Q.ToProto()
+			valid.ExtraBytes = extra
+			muts := structuralMutations(valid)
+			nMuts += len(muts)
+			for i, mu := range muts {
+				if !gen.ShardOwns(i + vi) {
+					continue
+				}
+				m := proto.Clone(valid).(*pb.QuoteV4)
+				if extra != nil && len(extra) == 0 {
+					m.ExtraBytes = []byte{} // Clone drops an empty slice
+				}
+				mu.Apply(m)
+				b, _ := proto.Marshal(m)
+				rp := map[string]any{"kind": "crash-message", "proto_hex": hex.EncodeToString(b), "mutation": mu.Name}
+				if extra != nil && len(extra) == 0 {
+					rp["empty_extra_bytes"] = true
+				}
+				messageEntryPoints(t, base, m, rp, ccel, table)
+				if abi.CheckQuoteV4(valid) == nil {
+					gen.NonTrivial("msg", mu.Name, vi)
+				}
+				gen.Class("message-mutation")
+				if i%29 == 0 && vi == 0 {
+					gen.Sample("message-mutation", mu.Name)
+				}
 			}
 		}
 		// degenerate messages and non-quote types
@@ -362,7 +394,7 @@ func TestC10(t *testing.T) {
 			messageEntryPoints(t, base, m, rp, ccel, table)
 			gen.NonTrivial("degenerate", fmt.Sprintf("%T", m))
 		}
-		gen.Exhaustive(fmt.Sprintf("all %d single structural mutations of a valid QuoteV4 message + degenerate values", len(muts)), true)
+		gen.Exhaustive(fmt.Sprintf("all %d single structural mutations of a valid QuoteV4 message (without, with and with empty trailing bytes) + degenerate values", nMuts), true)
 	})
 
 	// (2) raw bytes: all truncations and size-field boundaries (shared with C09's enumerations), at every raw entry point.
@@ -428,6 +460,7 @@ func TestC10(t *testing.T) {
 						o := w.Options(l, w.NewGetter(), nil)
 						rp := w.CaseFile(l, nil, nil, nil, "nopanic")
 						c10Call(t, "verify.RawTdxQuote+signed-"+k.name+"-shape", rp, func() error { return verify.RawTdxQuote(w.Raw, o) })
+						thenSupported(t, w, o, "signed-"+k.name+"-shape", rp)
 					}
 					// the same deformed document as the exact-name member next to a well-formed, differently spelled twin
 					// (a shape check that looks at one parse and a use that looks at the other must not disagree into a crash)
@@ -445,6 +478,7 @@ func TestC10(t *testing.T) {
 						o := w.Options(gen.LvlColl, w.NewGetter(), nil)
 						rp := w.CaseFile(gen.LvlColl, nil, nil, nil, "nopanic")
 						c10Call(t, "verify.RawTdxQuote+signed-"+k.name+"-shape-with-twin", rp, func() error { return verify.RawTdxQuote(w.Raw, o) })
+						thenSupported(t, w, o, "signed-"+k.name+"-shape-with-twin", rp)
 						o2 := w.Options(gen.LvlColl, w.NewGetter(), nil)
 						c10Call(t, "verify.SupportedTcbLevelsFromCollateral+signed-"+k.name+"-shape-with-twin", rp, func() error {
 							m, err := abi.QuoteToProto(w.Raw)
@@ -496,6 +530,7 @@ func TestC10(t *testing.T) {
 					for _, l := range []gen.Level{gen.LvlColl, gen.LvlCRL} {
 						o := w.Options(l, w.NewGetter(), nil)
 						c10Call(t, "verify.RawTdxQuote+signed-"+k.name+"-dates", w.CaseFile(l, nil, nil, nil, "nopanic"), func() error { return verify.RawTdxQuote(w.Raw, o) })
+						thenSupported(t, w, o, "signed-"+k.name+"-dates", w.CaseFile(l, nil, nil, nil, "nopanic"))
 						o2 := w.Options(l, w.NewGetter(), nil)
 						c10Call(t, "verify.SupportedTcbLevelsFromCollateral+signed-"+k.name+"-dates", w.CaseFile(l, nil, nil, nil, "nopanic"), func() error {
 							m, err := abi.QuoteToProto(w.Raw)
@@ -777,7 +812,7 @@ func TestC10(t *testing.T) {
 				o := w.Options(l, w.NewGetter(), nil)
 				rp["level"] = int(l)
 				c10Call(t, "verify.RawTdxQuote+"+kind, rp, func() error { return verify.RawTdxQuote(w.Raw, o) })
-				// the level-reporting API on the same options: only after a verification that got past the collateral checks
+				thenSupported(t, w, o, kind, rp)
 			}
 			gen.NonTrivial(desc, w.Resp[k.url(w)].Body, fmt.Sprint(w.Resp[k.url(w)].Header))
 		case "sgx-ext-der", "sgx-ext-in-leaf":
@@ -883,6 +918,9 @@ func init() {
 		m := &pb.QuoteV4{}
 		if err := proto.Unmarshal(b, m); err != nil {
 			return "bad replay message"
+		}
+		if c["empty_extra_bytes"] == true {
+			m.ExtraBytes = []byte{}
 		}
 		w := gen.NewWorld(gen.NewPKI(gen.PKISpec{Seed: "pki-A"}), gen.NewStream(1, "c10")).Build()
 		var msg string
